@@ -372,6 +372,19 @@ also('C08', 'an xor-fold parity covers the whole index word (PAR1); the single-i
 also('C09', 'no unbounded integer of the Sp(2n,F2) bookkeeping is converted to a fixed-width NumPy integer (BI2).')
 also('C10', 'a total count is compared with x.size, never len(x) (LEN1); no use of the generator in a seed-accepting method is gated by object state left by earlier calls (S9).')
 
+# ---- clauses added with the round-5 rules, second half
+also('C11', 'measure_quantum_vector does not reject states by an absolute double-precision tolerance on the probabilities (M3g).')
+also('C12', 'a quadratic form vdot(v, M @ v) keeps the vector on the right of the product (QF1); the Hilbert-Schmidt product of two flattened matrices and every self-contraction '
+            'of a complex-capable array carry a conjugate (HM6).')
+also('C13', 'no convex-roof forward divides by the ensemble weights without a floor (V5).')
+also('C14', 'a literal table of partition numbers equals the recurrence evaluated by the checker (GR8); the character inner product conjugates one factor (HM6).')
+also('C15', 'get_su2_irrep never wraps an Euler angle modulo 2 pi (PG2); the 4 pi sheet test takes the real part of the complex product (AG7).')
+also('C16', 'torch constructors in numqi.gellmann name their dtype (DT11); no sqrt-scaled store into a buffer typed after the coefficient vector (DT6C).')
+also('C17', 'the input layout of partial_trace_ABk_to_AB is never guessed from a size coincidence (LG1).')
+also('C18', 'the literal four-qubit UPB is pairwise orthogonal by its (basis, index) labels (UPB1, 15 pairs); the projector stack of the measurement bases conjugates the bra '
+            'factor also when written as an einsum (HM6).')
+also('C20', 'allclose / isclose with atol never keep the default rtol (AC1: the structure-class dispatch uses the stated absolute tolerance).')
+
 for _p in sorted(CLAIMS):
     also(_p, 'no function outside the reviewed set of 24 memoised functions is decorated with lru_cache / cache (or keeps a module-level memo) while returning an unfrozen '
              'NumPy / torch object (MC3: no new shared mutable result in the modules of this property; package-wide in the thorough tier); no function of those modules writes in place into (a view of) an '
